@@ -9,7 +9,7 @@ ESCAPES = ["\\n", "\\t", "\\\\", "\\'", '\\"', "\\x41", "\\101", "\\u00e9", "\\N
 NONASCII = ["é", "日本", "😀"]
 EXPRS = ["a", "b", "a.b", "a[0]", "f(a)", "f(a, b=1)", "a + b", "a if b else c", "-a", "not a", "a, b", "*a, b", "(a)", "[a, b]", " {1: 2}[1] ", " {a} ", "(lambda: 1)()", "(x := 1)", "a!=b", "a == b",
          "a[1:2]", "a < b", "(yield)", "await a", "1.5", "0x1F", "None", "...", "a @ b", "a ** -b", "f(*a, **k)", "a.b.c(d)[e]", "lambda_", "(a, (b, c))", "{**a}", "[x for x in y]", "{k: v for k, v in z}"]
-SPEC_TEXT = [">10", "<5", "^8", "0.2f", ".3", "x", "#x", ",", "_", "%Y-%m-%d", "%H:%M", "10", "08.3f", "s", "+", " ", "\"^10", "b:c", "é>4"]
+SPEC_TEXT = ["=^10", "=", "=+8.2f", ">10", "<5", "^8", "0.2f", ".3", "x", "#x", ",", "_", "%Y-%m-%d", "%H:%M", "10", "08.3f", "s", "+", " ", "\"^10", "b:c", "é>4"]
 
 
 class FGen:
@@ -140,7 +140,7 @@ class FGen:
         return f"{prefix}{quote}{body}{quote}"
 
     def plain_string(self):
-        return self.pick(["'s'", '"t"', "'{'", "'}'", "'''m'''", "r'\\d'", "u'u'", "'a' \"b\""])
+        return self.pick(["'s'", '"t"', "'{'", "'}'", "'''m'''", "r'\\d'", "u'u'", "'a' \"b\"", "''", '""', "'' ''", "''''''"])
 
     def statement(self):
         """one or more literals in a statement; adjacency features are recorded"""
